@@ -116,6 +116,45 @@ def obligations(r, tier, seed):
                                                wrap_rows=wrap_rows(T)), "ambient")
         obs.append(Ob("C10/%s/jacobian_inverse/ambient" % T, inverse_ambient, tier="internal", funcs=[cls + ".jacobian_inverse"]))
 
+    # ---- "exact derivative" is a statement about the value the pose holds WHEN the method is called: poses are mutable arrays
+    #      (in-place assignment, normalize()), so every method is called, the operands are overwritten in place, and every method
+    #      is called again: the results are those of freshly built poses with the new values.
+    for T in TYPES:
+        for how in (("assign", "normalize") if T == "SE3" else ("assign",)):
+            def fresh_values(k, T=T, how=how):
+                PT = POINT_OF[T]
+                n = POSE_N[T]
+                unit = how != "normalize"
+                a1, b1 = k.pose(T, "a1", unit=unit), k.pose(T, "b1", unit=unit)
+                a2, b2 = k.pose(T, "a2"), k.pose(T, "b2")
+                pt = k.pose_cls(PT)(list(k.reals("x", POSE_N[PT])))
+
+                def all_methods(a, b):
+                    out = []
+                    for opname in OPS:
+                        for wrt in ("self", "other"):
+                            for suffix in ("", "_compact"):
+                                m = "jacobian_self_%s_other_wrt_%s%s" % (opname, wrt, suffix)
+                                out.append((m, getattr(a, m)(b)))
+                    out.append(("jacobian_boxplus", a.jacobian_boxplus()))
+                    out.append(("jacobian_inverse", a.jacobian_inverse()))
+                    out.append(("jacobian_self_oplus_point_wrt_self", a.jacobian_self_oplus_point_wrt_self(pt)))
+                    out.append(("jacobian_self_oplus_point_wrt_point", a.jacobian_self_oplus_point_wrt_point(pt)))
+                    return out
+                first = all_methods(a1, b1)
+                if how == "assign":
+                    a1[:] = a2.to_array()
+                    b1[:] = b2.to_array()
+                else:
+                    a1.normalize()
+                    b1.normalize()
+                again = all_methods(a1, b1)
+                ref = all_methods(k.pose_from_raw(T, [a1[i] for i in range(n)]), k.pose_from_raw(T, [b1[i] for i in range(n)]))
+                for (m, got), (_, want) in zip(again, ref):
+                    k.eq(got, want, "%s after the operands were changed in place (%s) == the result for fresh poses with the new values" % (m, how))
+                k.check(len(first) == 12, "all 12 methods called before the change")
+            obs.append(Ob("C10/%s/jacobians-depend-on-the-current-value-only/%s" % (T, how), fresh_values, funcs=[FUNCS[T]]))
+
     # canaries
     def canary_sign(k):
         a, b = k.pose("SE3", "a"), k.pose("SE3", "b")
